@@ -331,7 +331,9 @@ pub fn run_conc(tokens: &[&str]) -> String {
     let factory_addrs: Arc<Mutex<Vec<std::net::SocketAddr>>> = Arc::new(Mutex::new(vec![]));
     let proto = proto.to_string();
     let out = rt.block_on(async {
-        let listener = tokio::net::TcpListener::bind("127.0.0.1:0").await.unwrap();
+        let v6 = proto.ends_with('6');
+        let proto = proto.trim_end_matches('6').to_string();
+        let listener = tokio::net::TcpListener::bind(if v6 { "[::1]:0" } else { "127.0.0.1:0" }).await.unwrap();
         let addr = listener.local_addr().unwrap();
         let fa = factory_addrs.clone();
         let proto3 = proto.clone();
@@ -654,4 +656,40 @@ pub fn run_e2e(tokens: &[&str]) -> String {
     });
     drop(rt);
     out
+}
+
+
+/// `ACCADDR <tcp|rtu> <socket address>`: the library's `accept_tcp_connection` helper called with a live stream and
+/// the given peer address; output `<address as given> n=<factory invocations> same=<1 iff the factory saw that address>`
+pub fn run_accaddr(tokens: &[&str]) -> String {
+    let [proto, a] = tokens else {
+        return "ERR accaddr".into();
+    };
+    let Ok(want) = a.parse::<std::net::SocketAddr>() else {
+        return "ERR addr".into();
+    };
+    let rt = tokio::runtime::Builder::new_current_thread().enable_all().build().unwrap();
+    let seen: Arc<Mutex<Vec<std::net::SocketAddr>>> = Arc::new(Mutex::new(vec![]));
+    let s2 = seen.clone();
+    let ok = rt.block_on(async {
+        let l = tokio::net::TcpListener::bind("127.0.0.1:0").await.unwrap();
+        let la = l.local_addr().unwrap();
+        let (c, s) = tokio::join!(tokio::net::TcpStream::connect(la), l.accept());
+        let (_c, (stream, _)) = (c.unwrap(), s.unwrap());
+        let factory = move |x: std::net::SocketAddr| {
+            s2.lock().unwrap().push(x);
+            Ok(Some(RuleService { _addr: x }))
+        };
+        if *proto == "tcp" {
+            tokio_modbus::server::tcp::accept_tcp_connection(stream, want, factory).map(|o| o.is_some())
+        } else {
+            tokio_modbus::server::rtu_over_tcp::accept_tcp_connection(stream, want, factory).map(|o| o.is_some())
+        }
+    });
+    let sn = seen.lock().unwrap();
+    match ok {
+        Ok(true) => format!("{} n={} same={}", a, sn.len(), if sn.len() == 1 && sn[0] == want { 1 } else { 0 }),
+        Ok(false) => format!("{a} REJECTED"),
+        Err(e) => format!("{a} E:{}", show_kind(e.kind())),
+    }
 }
